@@ -199,7 +199,7 @@ def run(ck, facts, tier, only=None):
         try:
             from rules import c09 as c09m
             nd9, tb9 = list(ck.not_decided), list(ck.trusted)
-            with ck.restrict({"R09.1"}):
+            with ck.restrict({"R09.1", "R09.10"}):          # R09.10: pairs are compared structurally (the update guard and the slot search use ==)
                 c09m.run(ck, facts, tier)
             ck.not_decided[:], ck.trusted[:] = nd9, tb9
         finally:
